@@ -1,4 +1,4 @@
-\* generation, deep single-account histories: one account, 3 candidates (c2, c3 twins), one parameter vote, no names, 5 transactions, 7 heights
+\* generation (quick tier), failed blocks: one account, one DiscardBlock, 4 transactions, 5 heights
 SPECIFICATION Spec
 CONSTANTS
   Accts <- A1
@@ -16,9 +16,9 @@ CONSTANTS
   DefaultParam <- Defaults
   StakingDelay = 2
   VotingDelay = 2
-  MaxHeight = 7
-  MaxDiscards = 0
-  MaxOps = 5
+  MaxHeight = 5
+  MaxDiscards = 1
+  MaxOps = 4
 VIEW viewAbs
 ACTION_CONSTRAINT GenLog
 CHECK_DEADLOCK FALSE
